@@ -269,6 +269,19 @@ def gen_c01(ctx):
     for i in range(N):
         c = drv_extras(rng, factor_case(rng, ctx.quick, 'gssv', pmodes=(0, 1, 1, 2, 4)))
         items.append(({'variant': 'plain', 'prec': precs[i]}, c))
+    # wide panels over narrow supernodes (see C02): skyline / band / dense matrices with panel sizes 12..24 through the driver
+    NW = 700 if ctx.quick else 10000
+    pv = spread(rng, NW)
+    for i in range(NW):
+        n = rng.choice([20, 25, 30, 40, 60])
+        c = {'cmd': 'gssv', 'fam': rng.choice(['skyline', 'skyline', 'skyline', 'band', 'dense']), 'n': n, 'seed': rng.randrange(1, 1 << 30), 'vals': 'generic', 'dom': rng.choice(['row', 'col']),
+             'ldens': rng.choice([1.0, 0.6, 0.3]), 'maxlen': rng.choice([4, 6, 9]), 'bl': 8, 'bu': rng.choice([4, 6]),
+             'np': rng.choice([1, 1, 2, 4]), 'ord': rng.choice([0, 0, 0, 1]), 'w': rng.choice([8, 12, 12, 16, 20, 24]), 'relax': rng.choice([1, 2, 4]),
+             'maxsup': rng.choice([4, 6, 7, 8, 10]), 'rowblk': rng.choice([2, 4, 200]), 'colblk': rng.choice([2, 4, 100])}
+        if c['fam'] == 'dense': c['n'] = min(n, 40)
+        c['maxsup'] = max(c['maxsup'], c['relax'])
+        if c['np'] > 1: c['pmode'] = rng.choice([0, 1, 2]); c['pert'] = rng.randrange(1, 1 << 30)
+        items.append(({'variant': 'plain', 'prec': pv[i]}, drv_extras(rng, c)))
     if not ctx.quick:
         for v in ('vblas', 'omp', 'long'):
             pv = spread(rng, 8000)
@@ -419,6 +432,12 @@ def gen_c04(ctx):
              'np': rng.choice([2, 4, 8, 8, 16]), 'ord': 0, 'w': rng.choice([1, 1, 2]), 'relax': 1, 'maxsup': 8, 'rowblk': 200, 'colblk': 100, 'oracle': 0, 'watch': 1,
              'pmode': rng.choice([0, 0, 0, 1]), 'pert': rng.randrange(1, 1 << 30), 'reps': 40 if ctx.quick else 100}
         items.append(({'variant': 'plain', 'prec': pv[i]}, c))
+    # thread counts far above cores and columns (each worker only ever polls): start-up / shut-down bookkeeping per thread
+    for k, np_ in enumerate([65, 66, 96, 127, 128, 129, 200, 256, 257, 300] if ctx.quick else [65, 66, 80, 96, 100, 127, 128, 129, 160, 200, 255, 256, 257, 300, 400, 512, 513, 600]):
+        for fam in ('band', 'tree'):
+            c = {'cmd': 'gssv' if k % 2 else 'gstrf', 'fam': fam, 'n': 12 if fam == 'band' else 40, 'bl': 1, 'bu': 1, 'shape': 2, 'kary': 3, 'seed': 5 + k, 'vals': 'generic', 'dom': 'row',
+                 'np': np_, 'ord': 0, 'w': 2, 'relax': 2, 'maxsup': 8, 'rowblk': 200, 'colblk': 100, 'nrhs': 1, 'stype': 'nc'}
+            items.append(({'variant': 'asan' if fam == 'tree' else 'plain', 'prec': 'd', 'per_process': True, 'timeout_scale': 3.0}, c))
     items += sched_items(ctx)
     return items
 
@@ -462,6 +481,20 @@ def gen_c05(ctx):
         env = {'SuperLU_DYNAMIC_SNODE_STORE': '1'} if (rng.random() < 0.25 and c['np'] == 1) else {}
         if env: c['dyn'] = 1
         items.append(({'variant': 'asan' if i % 2 else 'plain', 'prec': pv[i], 'env': env}, c))
+    # the caller's panel_size / relax options need not be what sp_ienv(1)/(2) answer (EXAMPLE/p?linsolx -w, -x): every array that
+    # is sized from one of them must hold what the other one produces; chains long enough for full-width panels
+    NO = 400 if ctx.quick else 6000
+    pv = spread(rng, NO)
+    for i in range(NO):
+        w = rng.choice([1, 2, 4, 8]); wopt = rng.choice([w + 1, 2 * w, 3 * w, 3 * w + 1, max(1, w // 2)])
+        rl = rng.choice([1, 2, 4]); rlopt = rng.choice([rl, rl, rl + 1, 2 * rl, max(1, rl // 2)])
+        c = {'cmd': 'gstrf', 'fam': rng.choice(['band', 'band', 'dense', 'chain', 'skyline', 'grid']), 'n': rng.choice([30, 60, 100, 160]), 'seed': rng.randrange(1, 1 << 30), 'vals': 'generic', 'dom': 'row',
+             'bl': rng.choice([1, 3, 8]), 'bu': rng.choice([1, 3]), 'lower': 1, 'ldens': 0.5, 'maxlen': 6,
+             'np': rng.choice([1, 2, 4]), 'ord': rng.choice([0, 0, 1]), 'w': w, 'wopt': wopt, 'relax': rl, 'relaxopt': rlopt, 'maxsup': rng.choice([8, 24]), 'rowblk': rng.choice([2, 200]), 'colblk': rng.choice([2, 100]),
+             'u': 1.0, 'oracle': rng.choice([0, 1])}
+        if c['fam'] == 'dense': c['n'] = min(c['n'], 60)
+        c['maxsup'] = max(c['maxsup'], rl, rlopt)
+        items.append(({'variant': 'asan', 'prec': pv[i]}, c))
     # exhaustive forced pivot orders on small patterns under ASan (all pivot sequences)
     k = 0
     nmax = 3 if ctx.quick else 4
